@@ -529,6 +529,7 @@ pub fn run(case: &str, ctx: &mut Ctx) -> String {
             run_tc(e, &ty, ctx)
         }
         Some("pager") => pager::run(case, ctx),
+        Some("rowsmeta") => rowsmeta::run(case, ctx),
         Some("bindrow") => run_bindrow(case, ctx),
         Some("batch") => run_batch(case, ctx),
         Some("sbatch") | Some("squery") => sessbind::run(case, ctx),
